@@ -20,6 +20,7 @@ import (
 	"os"
 	"os/exec"
 	"reflect"
+	"sort"
 	"strings"
 	"sync"
 	"time"
@@ -52,6 +53,10 @@ type input struct {
 	// the wrapper is built by tagformat.ReformatDialsTagSource (decoder
 	// DecodeGoTags, encoder index Via-1) instead of sourcewrap.NewTransformingSource
 	Via int `json:"via,omitempty"`
+	// the chain is spread over Nest (2 or 3) transforming sources wrapped
+	// directly around one another: the composition of the single wrappers is the
+	// wrapper of the whole chain (outermost wrapper = first manglers)
+	Nest int `json:"nest,omitempty"`
 }
 
 type childResult struct {
@@ -196,7 +201,10 @@ func runCase[T any](in input) childResult {
 	var zero T
 	t0 := reflect.TypeOf(zero)
 	chain, cname := xf.DrawChain(r)
-	if in.Via > 0 {
+	if in.Via > 0 && in.Nest > 0 {
+		// ReformatDialsTagSource around further transforming source(s)
+		chain, cname = append([]xf.M{xf.Reformat(common.DialsTagName, 7, in.Via-1)}, chain...), "via-ReformatDialsTagSource-nested-"+cname
+	} else if in.Via > 0 {
 		chain, cname = []xf.M{xf.Reformat(common.DialsTagName, 7, in.Via-1)}, "via-ReformatDialsTagSource"
 	}
 	// defaults
@@ -233,12 +241,55 @@ func runCase[T any](in input) childResult {
 	if in.Inner <= 1 {
 		innerSrc = &inner.fakeSrc // not a Watcher
 	}
+	fakeInner := innerSrc // the scripted source at the bottom
 	wrapped := sourcewrap.NewTransformingSource(innerSrc, xf.Manglers(chain)...)
+	if in.Nest > 0 && len(chain) >= 2 {
+		// cut the chain into 2 or 3 non-empty pieces; the LAST piece is the innermost wrapper
+		nr := coqfmt.NewRng(in.State ^ 0x4e357)
+		pieces := in.Nest
+		if pieces > len(chain) {
+			pieces = len(chain)
+		}
+		first := 0
+		if in.Via > 0 {
+			first = 1 // the reformat stage is the outermost wrapper, built below
+			if pieces > len(chain)-1 {
+				pieces = len(chain) - 1
+			}
+			pieces++
+		}
+		cuts := []int{}
+		for len(cuts) < pieces-1 {
+			c := 1 + nr.Intn(len(chain)-1)
+			if in.Via > 0 && len(cuts) == 0 {
+				c = 1
+			}
+			dup := false
+			for _, x := range cuts {
+				dup = dup || x == c
+			}
+			if !dup && c >= first {
+				cuts = append(cuts, c)
+			}
+		}
+		sort.Ints(cuts)
+		bounds := append(append([]int{0}, cuts...), len(chain))
+		nested := innerSrc
+		for i := len(bounds) - 2; i >= 0; i-- {
+			if in.Via > 0 && i == 0 {
+				break
+			}
+			nested = sourcewrap.NewTransformingSource(nested, xf.Manglers(chain[bounds[i]:bounds[i+1]])...)
+		}
+		wrapped = nested
+		innerSrc = nested // what ReformatDialsTagSource wraps below
+		res.Tags = append(res.Tags, fmt.Sprintf("nested-wrappers-%d", len(bounds)-1))
+	}
 	if in.Via > 0 {
 		// the shipped convenience constructor: same chain, and a watching inner
 		// source must stay a watching source
 		wrapped = tagformat.ReformatDialsTagSource(innerSrc, xf.Decoders[7], xf.Encoders[in.Via-1])
-		if _, innerWatches := innerSrc.(dials.Watcher); innerWatches {
+		if _, innerWatches := fakeInner.(dials.Watcher); innerWatches {
 			if _, ok := wrapped.(dials.Watcher); !ok {
 				res.Direct = append(res.Direct, "ReformatDialsTagSource of a watching source is not a Watcher: its updates are lost")
 			}
@@ -247,7 +298,7 @@ func runCase[T any](in input) childResult {
 	// transparency of the Watcher property: the wrapper is a dials.Watcher exactly
 	// when the wrapped source is (Dials and Blank decide by type assertion)
 	{
-		_, innerWatches := innerSrc.(dials.Watcher)
+		_, innerWatches := fakeInner.(dials.Watcher)
 		_, wrapWatches := wrapped.(dials.Watcher)
 		if innerWatches != wrapWatches {
 			res.Direct = append(res.Direct, fmt.Sprintf("inner source is a Watcher: %v, its transforming wrapper: %v", innerWatches, wrapWatches))
@@ -261,7 +312,7 @@ func runCase[T any](in input) childResult {
 	}
 	d, cfgErr := dials.Params[T]{OnWatchedError: func(context.Context, error, *T, *T) { wrappedErrs.add() }}.Config(ctx, defaults, wrapped)
 
-	if in.Via > 0 && seenType != nil {
+	if in.Via > 0 && in.Nest == 0 && seenType != nil {
 		// what the wrapped source gets to see: EVERY field, at every depth the
 		// transformer recurses to, carries its dials name in the requested casing
 		if m := checkReformatted(pt, seenType, xf.Encoders[in.Via-1], ""); m != "" {
@@ -639,6 +690,9 @@ func gen(r *coqfmt.Rng, n int, tier string) []json.RawMessage {
 		if r.Chance(1, 8) {
 			c.Via = 1 + r.Intn(6)
 		}
+		if r.Chance(1, 5) {
+			c.Nest = 2 + r.Intn(2)
+		}
 		if r.Chance(1, 4) {
 			c.Prime = 1 + r.Intn(3)
 			c.PrimeType = (c.Type + 1 + r.Intn(11)) % 12
@@ -657,7 +711,7 @@ func main() {
 	}
 	driver.Main(driver.Engine{
 		Prop: "C20", CoqImport: "Dials.Check.C20Check", CoqRun: "run_cases",
-		Rule: "twelve static config types (nesting by value and pointer to depth 4, aliases on leaves and struct-typed fields at every level incl. family-specific alias tags, embedded value and pointer structs, []struct / [2]struct / map[string]struct with nested element structs, sets of strings / ints / named strings, named slices and maps, user pointers to scalars / slices / maps, arrays, complex, TextUnmarshaler; two types with a Verify method that rejects part of the update values: pointer and value receiver) (nesting by value/pointer, embedded value/pointer, alias tags on leaves and structs, sets, maps, []struct, [2]struct, durations, named scalars, TextUnmarshaler) x random defaults x a mangler chain from C10's generator (shipped chains, mixed chains, sub-chains) x inner source: static (1/10), failing Value (1/10; the error is a plain one or a sentinel - io.EOF, io.ErrUnexpectedEOF, fs.ErrNotExist, context.Canceled, DeadlineExceeded, os.ErrPermission - bare or wrapped; the same failure is also put behind NewTransformingDecoder: Config must fail as it does unwrapped and the cause stay reachable), watching whose Watch fails (1/10), watching with 1-5 updates (7/10; one update in five is made un-reversible on purpose when the chain allows it: both names of an aliased field set, or an unparsable text, so sequences mix reversible and un-reversible values), each update a random filling of the translated type reported through ReportNewValue or BlockingReportNewValue; the value returned by every (Blocking)ReportNewValue is compared with the model (a blocking report returns the verdict of its own re-stack) and with the natively fed Dials, the View is read immediately after a blocking report returned and again after the update settled; after every step the View is compared with a reference Dials fed the already-unmangled value and with the model (reverse-translate, then stack onto the defaults); one case in eight builds the wrapper with tagformat.ReformatDialsTagSource (DecodeGoTags, each of the six encoders) instead of sourcewrap.NewTransformingSource; one case in four REUSES the wrapper instance: it is first asked for the Value, the Watch or both of ANOTHER config type of the palette and must then behave for the case's type exactly as a fresh wrapper (same model outcome, same reference Dials); non-trivial: watching inner source with >= 2 updates; distinct = distinct PRNG case states; every case runs in a child process",
+		Rule: "twelve static config types (nesting by value and pointer to depth 4, aliases on leaves and struct-typed fields at every level incl. family-specific alias tags, embedded value and pointer structs, []struct / [2]struct / map[string]struct with nested element structs, sets of strings / ints / named strings, named slices and maps, user pointers to scalars / slices / maps, arrays, complex, TextUnmarshaler; two types with a Verify method that rejects part of the update values: pointer and value receiver) (nesting by value/pointer, embedded value/pointer, alias tags on leaves and structs, sets, maps, []struct, [2]struct, durations, named scalars, TextUnmarshaler) x random defaults x a mangler chain from C10's generator (shipped chains, mixed chains, sub-chains) x inner source: static (1/10), failing Value (1/10; the error is a plain one or a sentinel - io.EOF, io.ErrUnexpectedEOF, fs.ErrNotExist, context.Canceled, DeadlineExceeded, os.ErrPermission - bare or wrapped; the same failure is also put behind NewTransformingDecoder: Config must fail as it does unwrapped and the cause stay reachable), watching whose Watch fails (1/10), watching with 1-5 updates (7/10; one update in five is made un-reversible on purpose when the chain allows it: both names of an aliased field set, or an unparsable text, so sequences mix reversible and un-reversible values), each update a random filling of the translated type reported through ReportNewValue or BlockingReportNewValue; the value returned by every (Blocking)ReportNewValue is compared with the model (a blocking report returns the verdict of its own re-stack) and with the natively fed Dials, the View is read immediately after a blocking report returned and again after the update settled; after every step the View is compared with a reference Dials fed the already-unmangled value and with the model (reverse-translate, then stack onto the defaults); one case in eight builds the wrapper with tagformat.ReformatDialsTagSource (DecodeGoTags, each of the six encoders) instead of sourcewrap.NewTransformingSource; one case in five spreads the chain over two or three transforming sources wrapped directly around one another (also with ReformatDialsTagSource outermost): model and reference stay those of the whole chain; one case in four REUSES the wrapper instance: it is first asked for the Value, the Watch or both of ANOTHER config type of the palette and must then behave for the case's type exactly as a fresh wrapper (same model outcome, same reference Dials); non-trivial: watching inner source with >= 2 updates; distinct = distinct PRNG case states; every case runs in a child process",
 		Gen:  gen, Run: run,
 	})
 	if cur != nil {
